@@ -4,6 +4,10 @@
      [op |-> "ym", rows]           yield several lines in one multi-line string
      [op |-> "enter", row]         with self.block(...):
      [op |-> "enterif", row, cond] with self.block_if(..., condition=cond):       (cond false: no block, body still runs)
+     [op |-> "enterdef", row, kinds] with self.block_if(t1, t2, ...): no explicit condition.  kinds[k] says what token k is:
+                                   "w" a word, "int" a number (row[k] is its decimal text, e.g. unit 0), "none" None, "empty" "".
+                                   The block is opened unless some token is None or the empty string -- a number, zero included,
+                                   is a token like any other
      [op |-> "menter", rows]       with self.multiblock(b1, b2, ...):
      [op |-> "leave"]              end of the innermost with-statement
    P-layer: the MEANING of a program is the tree of yielded paths (block stack + line; a block header is a line of its own).
@@ -13,6 +17,9 @@ EXTENDS Offside, Acl
 
 (* ------------------------------------ P ------------------------------------ *)
 \* frames: stack of numbers = how many block levels the with-statement opened (0 for a false block_if)
+Opens(o) == CASE o.op = "enterif" -> o.cond
+             [] o.op = "enterdef" -> \A k \in DOMAIN o.kinds : o.kinds[k] \notin {"none", "empty"}
+             [] OTHER -> TRUE
 RECURSIVE Meaning(_, _, _, _)
 Meaning(prog, stack, frames, tree) ==
   IF prog = <<>> THEN tree
@@ -22,8 +29,8 @@ Meaning(prog, stack, frames, tree) ==
                             Ins(t, rs) == IF rs = <<>> THEN t ELSE Ins(Insert(t, Append(stack, Head(rs))), Tail(rs))
                         IN Meaning(rest, stack, frames, Ins(tree, o.rows))
       [] o.op = "enter" -> Meaning(rest, Append(stack, o.row), Append(frames, 1), Insert(tree, Append(stack, o.row)))
-      [] o.op = "enterif" ->
-           IF o.cond THEN Meaning(rest, Append(stack, o.row), Append(frames, 1), Insert(tree, Append(stack, o.row)))
+      [] o.op \in {"enterif", "enterdef"} ->
+           IF Opens(o) THEN Meaning(rest, Append(stack, o.row), Append(frames, 1), Insert(tree, Append(stack, o.row)))
            ELSE Meaning(rest, stack, Append(frames, 0), tree)
       [] o.op = "menter" ->
            LET RECURSIVE Ins(_, _, _)
@@ -39,7 +46,7 @@ Tree(prog) == Meaning(prog, <<>>, <<>>, <<>>)
 RECURSIVE Balanced(_, _)
 Balanced(prog, depth) == IF prog = <<>> THEN TRUE
                          ELSE LET o == Head(prog) IN
-                              IF o.op \in {"enter", "enterif", "menter"} THEN Balanced(Tail(prog), depth + 1)
+                              IF o.op \in {"enter", "enterif", "enterdef", "menter"} THEN Balanced(Tail(prog), depth + 1)
                               ELSE IF o.op = "leave" THEN depth > 0 /\ Balanced(Tail(prog), depth - 1)
                               ELSE Balanced(Tail(prog), depth)
 
@@ -54,8 +61,8 @@ Lines(prog, ind, frames) ==
     CASE o.op = "y"  -> <<L(o.row, ind)>> \o Lines(rest, ind, frames)
       [] o.op = "ym" -> [k \in DOMAIN o.rows |-> L(o.rows[k], ind)] \o Lines(rest, ind, frames)
       [] o.op = "enter" -> <<L(o.row, ind)>> \o Lines(rest, ind + 2, Append(frames, 1))
-      [] o.op = "enterif" -> IF o.cond THEN <<L(o.row, ind)>> \o Lines(rest, ind + 2, Append(frames, 1))
-                             ELSE Lines(rest, ind, Append(frames, 0))
+      [] o.op \in {"enterif", "enterdef"} -> IF Opens(o) THEN <<L(o.row, ind)>> \o Lines(rest, ind + 2, Append(frames, 1))
+                                              ELSE Lines(rest, ind, Append(frames, 0))
       [] o.op = "menter" -> [k \in DOMAIN o.rows |-> L(o.rows[k], ind + 2 * (k - 1))] \o Lines(rest, ind + 2 * Len(o.rows), Append(frames, Len(o.rows)))
       [] OTHER -> IF frames = <<>> THEN Lines(rest, ind, frames)
                   ELSE Lines(rest, ind - 2 * frames[Len(frames)], SubSeq(frames, 1, Len(frames) - 1))
